@@ -47,3 +47,31 @@ Example C12_example_agree :
   let '(gh, _, ch) := apply_graph_updates_high_memory true c12_g0 c12_ups (g_ind c12_g0) in
   apply_graph_updates_low_memory c12_g0 c12_ups 1 = (gh, ch) /\ ch = 2 /\ g_ind gh = [[1]; [0]].
 Proof. vm_compute. repeat split; reflexivity. Qed.
+
+(* ---- every thread count (added).  The equality above is stated for the single-thread order of the
+   low-memory kernel; utils.apply_graph_updates_low_memory runs with n_threads = the numba thread
+   count.  By the row-ownership argument of C05 the kernel's result does not depend on the number
+   of threads, so low = high holds for every thread count. ---- *)
+From PV Require Import Par C05Proofs C05Threads.
+
+Theorem C12_low_memory_thread_count_irrelevant :
+  forall ups n T g, (0 < T)%nat -> C05Proofs.wf g n -> C05Proofs.ups_ok n ups ->
+    apply_graph_updates_low_memory g ups T = apply_graph_updates_low_memory g ups 1.
+Proof. exact apply_low_any_thread_count. Qed.
+Print Assumptions C12_low_memory_thread_count_irrelevant.
+
+Theorem C12_high_eq_low_any_thread_count :
+  forall (delta : nat -> Z -> Z) (n k T : nat) (g : graph) (ups : list (list update)),
+    (0 < k)%nat -> (0 < T)%nat -> wf_graph n k g ->
+    (forall r, (r < n)%nat -> RowInv delta r (grow g r)) ->
+    Forall (Forall (C12Proofs.upd_ok delta n)) ups -> C05Proofs.ups_ok n ups ->
+    apply_graph_updates_low_memory g ups T =
+    (fst (fst (apply_graph_updates_high_memory true g ups (g_ind g))),
+     snd (apply_graph_updates_high_memory true g ups (g_ind g))).
+Proof.
+  intros delta n k T g ups Hk HT Hwf Hrows Hok Hok5.
+  assert (W : C05Proofs.wf g n) by (destruct Hwf as [A [B [C _]]]; repeat split; auto).
+  rewrite (apply_low_any_thread_count ups n T g HT W Hok5).
+  apply (C12_high_eq_low delta n k g ups Hk Hwf Hrows Hok).
+Qed.
+Print Assumptions C12_high_eq_low_any_thread_count.
